@@ -65,6 +65,13 @@ func genC11(seed uint64, tier string) *Plan {
 		p.X["bg_sync_ms"] = 1 + r.Intn(p.X["bg_gc_ms"])
 		p.X["bg_limit_ms"] = []int{0, 0, 20, 60}[r.Intn(4)]
 		p.X["interrupt"] = 0
+		if p.X["mode"] != 1 && r.Chance(0.4) {
+			// the collectors and the flusher run from the first Open on, through
+			// the history and the emptying of the files (with pauses of up to two
+			// GC intervals between calls), so that the final flush can land in
+			// the middle of a cycle; no close/reopen before the idle phase
+			p.X["bgall"] = 1
+		}
 		if r.Chance(0.5) {
 			p.Sim.Latency = LatencyCfg{Kind: "const", Base: int64(1000 * (1 + r.Intn(200)))}
 			// a time limit has to leave room for the header and at least one whole
@@ -139,13 +146,24 @@ func runGCProg(p *Plan, tape *simrt.Tape, opt RunOpt) *RunOut {
 	d.GCErrFatal = true
 	pmax := uint64(p.Cfg.PrimaryFile)
 	imax := uint64(p.Cfg.IndexFile)
+	bgall := p.x("bgall", 0) == 1
+	pause := simrt.NewRand(p.Seed ^ 0xb9a11)
 	w, res := world(p, tape, fs, opt, nil, func() {
+		if bgall {
+			d.Cfg.GCMs = int64(p.x("bg_gc_ms", 10))
+			d.Cfg.GCLimitMs = int64(p.x("bg_limit_ms", 0))
+			d.Cfg.Flusher = true
+			d.Cfg.SyncMs = p.x("bg_sync_ms", 1)
+		}
 		if err := d.Open(); err != nil {
 			d.fail("open-error", "OpenStore failed: %v", err)
 			return
 		}
 		for i := range p.Ops {
 			d.OpIdx = i
+			if bgall && pause.Chance(0.5) {
+				simrt.Sleep(int64(pause.Intn(2*p.x("bg_gc_ms", 10)*1000)) * 1000)
+			}
 			d.Exec(&p.Ops[i])
 			if d.Viol != nil {
 				d.Viol = nil
@@ -326,7 +344,13 @@ func runGCProg(p *Plan, tape *simrt.Tape, opt RunOpt) *RunOut {
 			B *= 3
 		}
 		if p.x("bg", 0) == 1 {
-			d.gcProgBackground(p, target, oldFirst, B, imax, len(locs)+len(nonCurrent), released)
+			// with the collectors running from the start a file can have been
+			// emptied and marked visited while an older file still existed; the
+			// statement only promises the unlink for a file that is the oldest when
+			// it is visited, which is certain only if it still held live records
+			// when the emptying began (their freelist entries make GC revisit it)
+			checkOldest := p.x("bgall", 0) != 1 || len(liveIn[uint64(oldFirst)]) > 0
+			d.gcProgBackground(p, target, oldFirst, B, imax, len(locs)+len(nonCurrent), released, checkOldest)
 			return
 		}
 		rounds := 0
@@ -497,7 +521,7 @@ func runGCProg(p *Plan, tape *simrt.Tape, opt RunOpt) *RunOut {
 // files all of whose records were superseded and flushed) and the index files no
 // bucket refers into must be released within a bounded number of GC intervals
 // of simulated time, and after that the files must stop changing.
-func (d *Driver) gcProgBackground(p *Plan, target map[uint64]bool, oldFirst uint32, B int, imax uint64, nfix int, released func() []uint64) {
+func (d *Driver) gcProgBackground(p *Plan, target map[uint64]bool, oldFirst uint32, B int, imax uint64, nfix int, released func() []uint64, checkOldest bool) {
 	// index files no bucket refers into (before the collectors start)
 	curIdx := uint64(d.St.Index().VerifCurrentFile())
 	busy := map[uint64]bool{}
@@ -523,17 +547,21 @@ func (d *Driver) gcProgBackground(p *Plan, target map[uint64]bool, oldFirst uint
 			return
 		}
 	}
-	if !d.CloseStore("gcprog-bg") {
-		return
-	}
 	gcMs := p.x("bg_gc_ms", 10)
-	d.Cfg.GCMs = int64(gcMs)
-	d.Cfg.GCLimitMs = int64(p.x("bg_limit_ms", 0))
-	d.Cfg.Flusher = true
-	d.Cfg.SyncMs = p.x("bg_sync_ms", 1)
-	if err := d.Open(); err != nil {
-		d.fail("gcprog/open-error", "reopen with background collectors failed: %v", err)
-		return
+	if p.x("bgall", 0) != 1 {
+		if !d.CloseStore("gcprog-bg") {
+			return
+		}
+		d.Cfg.GCMs = int64(gcMs)
+		d.Cfg.GCLimitMs = int64(p.x("bg_limit_ms", 0))
+		d.Cfg.Flusher = true
+		d.Cfg.SyncMs = p.x("bg_sync_ms", 1)
+		if err := d.Open(); err != nil {
+			d.fail("gcprog/open-error", "reopen with background collectors failed: %v", err)
+			return
+		}
+	} else {
+		d.cprobe("bg-from-start")
 	}
 	// cycles are counted on the simulated disk: every primary GC cycle begins by
 	// renaming the freelist file to .gc, every index GC cycle by opening the
@@ -639,7 +667,7 @@ func (d *Driver) gcProgBackground(p *Plan, target map[uint64]bool, oldFirst uint
 	d.cprobe("bg-released")
 	d.Probes["bg-intervals-waited"] += waited
 	d.Probes["bg-cycles"] += cyclesBoth() - start
-	if target[uint64(oldFirst)] && p.x("mode", 0) != 1 {
+	if target[uint64(oldFirst)] && p.x("mode", 0) != 1 && checkOldest {
 		if _, ok := fsOf().Files()[fmt.Sprintf("%s.%d", dataPath, oldFirst)]; ok {
 			// emptied by truncation; unlinked when it is visited as the oldest file
 			c0 := pcycles
